@@ -66,10 +66,10 @@ SPEC("pane.convert", "make_converter",
                                                result == StructConverter(typeof(ty), ty, handlers=handlers)), ["C01", "C18"], "struct-literal"),
          (lambda ty, handlers, result: implies(not (ty is ANY or ty is typeof(ANY)) and not isinstance(ty, TypeVar) and not isinstance(ty, (dict, Mapping))
                                                and isinstance(ty, tuple),
-                                               result == call(clsref("TupleConverter"), typeof(ty), ty, handlers=handlers)), ["C01", "C18"], "tuple-literal"),
+                                               result == TupleConverter(typeof(ty), ty, handlers=handlers)), ["C01", "C18"], "tuple-literal"),
          # special forms come before any handler: Annotated, Union (members get the handlers), Literal
          (lambda ty, handlers, result: implies(not mc_is_special_value(ty) and mc_base(ty) is UNION,
-                                               result == call(clsref("UnionConverter"), get_args(ty), handlers=handlers)), ["C01", "C11", "C18"], "union"),
+                                               result == UnionConverter(get_args(ty), handlers=handlers)), ["C01", "C11", "C18"], "union"),
          (lambda ty, handlers, result: implies(not mc_is_special_value(ty) and mc_base(ty) is LITERAL and mc_base(ty) is not UNION
                                                and mc_base(ty) is not ANNOTATED,
                                                result == LiteralConverter(get_args(ty))), ["C01"], "literal"),
@@ -96,7 +96,7 @@ SPEC("pane.convert", "make_converter",
                     and result == call(sat(GLOBAL_HANDLERS, k), mc_base(ty), get_args(ty), handlers=handlers))), ["C18"], "global-handlers"),
          # structural built-ins, each threading the handlers to its children
          (lambda ty, handlers, result: implies(mc_past_builtins(ty, handlers) and issub(mc_base(ty), Enum),
-                                               result == call(clsref("EnumConverter"), mc_base(ty), handlers=handlers)), ["C01", "C18"], "enum"),
+                                               result == EnumConverter(mc_base(ty), handlers=handlers)), ["C01", "C18"], "enum"),
          (lambda ty, handlers, result: implies(mc_past_builtins(ty, handlers) and not issub(mc_base(ty), Enum) and issub(mc_base(ty), PathLike)
                                                and not isabstract(mget_or(ABSTRACT_MAPPING, mc_base(ty))),
                                                result == ScalarConverter(mget_or(ABSTRACT_MAPPING, mc_base(ty)), (str, PathLike), "a path", "paths", str)),
@@ -105,13 +105,13 @@ SPEC("pane.convert", "make_converter",
          (lambda ty, handlers, result: implies(
              mc_past_builtins(ty, handlers) and not issub(mc_base(ty), Enum) and not issub(mc_base(ty), PathLike) and issub(mc_base(ty), tuple)
              and slen(get_args(ty)) > 0 and sat(get_args(ty), slen(get_args(ty)) - 1) != ELLIPSIS and get_args(ty) != ((),),
-             result == call(clsref("TupleConverter"), mc_base(ty), get_args(ty), handlers=handlers)), ["C01", "C18"], "tuple"),
+             result == TupleConverter(mc_base(ty), get_args(ty), handlers=handlers)), ["C01", "C18"], "tuple"),
          # homogeneous sequences and sets: abstract types mapped to a concrete container, element type defaulting to Any
          (lambda ty, handlers, result: implies(
              mc_past_builtins(ty, handlers) and not issub(mc_base(ty), Enum) and not issub(mc_base(ty), PathLike) and not issub(mc_base(ty), tuple)
              and (issub(mc_base(ty), Sequence) or issub(mc_base(ty), Set)) and not isabstract(mget_or(ABSTRACT_MAPPING, mc_base(ty))),
-             result == call(clsref("SequenceConverter"), mget_or(ABSTRACT_MAPPING, mc_base(ty)),
-                            ite(slen(get_args(ty)) > 0, sat(get_args(ty), 0), ANY), handlers=handlers)), ["C01", "C18"], "sequence"),
+             result == SequenceConverter(mget_or(ABSTRACT_MAPPING, mc_base(ty)),
+                                         ite(slen(get_args(ty)) > 0, sat(get_args(ty), 0), ANY), handlers=handlers)), ["C01", "C18"], "sequence"),
          # subclasses of the scalar built-ins are delegated to the FIRST matching row of the table
          (lambda ty, handlers, result: implies(
              mc_past_builtins(ty, handlers) and not issub(mc_base(ty), Enum) and not issub(mc_base(ty), PathLike) and not issub(mc_base(ty), tuple)
